@@ -13,6 +13,7 @@ import random
 
 from scen import Scn
 import scenario_common as sc
+import mcrapid
 
 LIMIT = 6 * 1024 * 1024 + 100
 KINDS = ["ok", "ok", "error", "oversize", "timeout", "exit", "abort", "repoll"]
@@ -107,6 +108,8 @@ def scenarios(ctx):
 
 def run(ctx):
     ctx.level = "model_checking"
+    # E1: the property predicates as invariants of the composite (spec/MC_Rapid.tla)
+    mcrapid.check(ctx, ['OkHasBody', 'StreamOwnerIsReserver', 'NoGhostInvoke'])
     ctx.assumptions += sc.ASSUME
     sc.run_families(ctx, scenarios(ctx), "roundtrip")
     ctx.coverage["exhaustive"] = False
